@@ -204,6 +204,13 @@ def run_unit(unit, tier):
                 "props": f["safety_props"], "fn": f["id"], "line": m["ranges"][f["id"]][0],
                 "text": "implicit obligations of %s (%s:%d-%d): no overflow, no failing unwrap/index, callee preconditions, termination"
                         % (f["id"], f["source"], f["lines"][0], f["lines"][1])}
+    res.ext_post = {}
+    for f in m["functions"]:
+        if f.get("ext_post") and not f.get("assumed_here"):
+            oid_ = "%s.%s" % (f["id"], f["ext_post"][0])
+            res.ext_post[f["id"]] = oid_
+            res.obligations[oid_] = {"props": f["safety_props"], "fn": f["id"], "line": m["ranges"][f["id"]][0],
+                                     "text": "[postcondition of the library trait contract, for %s] %s" % (f["id"], f["ext_post"][1])}
     # obligations inherited from a trait-level contract: one per tagged trait clause and implementing function
     tobl = {}
     for e in m["lines"]:
@@ -299,6 +306,12 @@ def _digest(res, run, m):
                 e = idx.get(ln)
                 if e and e["obl"]:
                     obl = e["obl"]
+                    break
+        if not obl and d["message"].startswith("postcondition not satisfied"):
+            for s in spans:
+                fn = _fn_of_line(m, s["line_start"])
+                if fn and fn in getattr(res, "ext_post", {}):
+                    obl = res.ext_post[fn]
                     break
         if not obl:
             # implicit obligation: attribute to the function that contains a span (prefer call sites = non primary)
